@@ -255,7 +255,7 @@ theorem total_updAt {l : List Task} {i : Nat} {f : Task → Task} {t : Task} (h 
 theorem mem_of_getElem? {l : List Task} {i : Nat} {t : Task} (h : l[i]? = some t) : t ∈ l :=
   List.mem_of_getElem? h
 
-theorem exists_getElem?_of_mem {l : List Task} {t : Task} (h : t ∈ l) : ∃ i, l[i]? = some t := by
+theorem exists_getElem?_of_mem {l : List Task} {t : Task} (h : t ∈ l) : ∃ i : Nat, l[i]? = some t := by
   obtain ⟨i, hi, he⟩ := List.getElem_of_mem h
   exact ⟨i, by simp [List.getElem?_eq_getElem hi, he]⟩
 
@@ -298,5 +298,205 @@ theorem sinv_onTask (c : SCfg) (s s' : SSt) (i : Nat) (guard : Task → Bool) (f
         · rw [ht] at ht'; cases ht'
           exact hf t hti hg
     · simp at hn
+
+theorem sinv_init (c : SCfg) : SInv c sInit := ⟨rfl, by simp [sInit]⟩
+
+theorem tinv_new (c : SCfg) (h : c.wfMem = true) : TInv c (newTask c) := by
+  simp only [SCfg.wfMem, Bool.and_eq_true, Bool.not_eq_true'] at h
+  obtain ⟨⟨⟨h1, h2⟩, h3⟩, h4⟩ := h
+  constructor <;> simp_all [newTask]
+
+theorem afterAdd_cases (c : SCfg) :
+    (afterAdd c = .waiting ∧ (c.inlineNoWorkers && c.workers == 0) = true) ∨
+      (afterAdd c = .recording ∧ (c.inlineNoWorkers && c.workers == 0) = false) := by
+  simp only [afterAdd]; split <;> simp_all
+
+set_option hygiene false in
+local macro "tlive" : tactic =>
+  `(tactic| (intro t ht hg _
+             rcases t with ⟨ph, bc, cs, lv, cnt, rc, rn⟩
+             rcases ht with ⟨h1, h2, h3, h4, h5, h6, h7⟩
+             cases ph <;> (try (simp at hg; done)) <;> cases lv <;> simp_all))
+
+set_option hygiene false in
+local macro "tstep" : tactic =>
+  `(tactic| (intro t ht hg
+             rcases t with ⟨ph, bc, cs, lv, cnt, rc, rn⟩
+             rcases ht with ⟨h1, h2, h3, h4, h5, h6, h7⟩
+             cases ph <;> (try (simp at hg; done)) <;> cases cs <;> (try (simp_all; done)) <;>
+               rcases haa with ⟨ha, hb⟩ | ⟨ha, hb⟩ <;> constructor <;> simp_all))
+
+theorem sinv_step (c : SCfg) (hwf : c.wfMem = true) (s : SSt) (a : SAct) (s' : SSt)
+    (h : SInv c s) (hn : sNext c s a = some s') : SInv c s' := by
+  have hnew := tinv_new c hwf
+  simp only [SCfg.wfMem, Bool.and_eq_true, Bool.not_eq_true'] at hwf
+  obtain ⟨⟨⟨hsd, hdet⟩, hra⟩, hrg⟩ := hwf
+  have haa := afterAdd_cases c
+  cases a with
+  | sched =>
+    simp only [sNext, Option.some.injEq] at hn
+    subst hn
+    exact ⟨h.uaf, by
+      intro t ht
+      simp only [List.mem_cons] at ht
+      rcases ht with rfl | ht
+      · exact hnew
+      · exact h.tasks t ht⟩
+  | add i inl =>
+    simp only [sNext] at hn
+    refine sinv_onTask c s s' i _ _ _ h hn ?_ ?_
+    · tlive
+    · cases inl <;> tstep
+  | popW i =>
+    simp only [sNext] at hn
+    split at hn
+    · refine sinv_onTask c s s' i _ _ _ h hn ?_ ?_
+      · tlive
+      · tstep
+    · simp at hn
+  | popC i =>
+    simp only [sNext] at hn
+    split at hn
+    · refine sinv_onTask c s s' i _ _ _ h hn ?_ ?_
+      · tlive
+      · tstep
+    · simp at hn
+  | run i =>
+    simp only [sNext] at hn
+    refine sinv_onTask c s s' i _ _ _ h hn ?_ ?_
+    · tlive
+    · tstep
+  | dec i =>
+    simp only [sNext] at hn
+    refine sinv_onTask c s s' i _ _ _ h hn ?_ ?_
+    · tlive
+    · tstep
+  | waitRet i =>
+    simp only [sNext] at hn
+    refine sinv_onTask c s s' i _ _ _ h hn ?_ ?_
+    · tlive
+    · tstep
+  | record i =>
+    simp only [sNext] at hn
+    refine sinv_onTask c s s' i _ _ _ h hn ?_ ?_
+    · tlive
+    · tstep
+  | reap i =>
+    simp only [sNext] at hn
+    refine sinv_onTask c s s' i _ _ _ h hn ?_ ?_
+    · tlive
+    · tstep
+
+/-! ## ScheduleM: termination measure and absence of stuck states -/
+
+theorem onTask_some {s : SSt} {i : Nat} {guard : Task → Bool} {f : Task → Task} {touches : Bool} {t : Task}
+    (ht : s.tasks[i]? = some t) (hg : guard t = true) : (onTask s i guard f touches).isSome = true := by
+  simp [onTask, ht, hg]
+
+theorem total_onTask {s s' : SSt} {i : Nat} {guard : Task → Bool} {f : Task → Task} {touches : Bool}
+    (hn : onTask s i guard f touches = some s') (hdec : ∀ t, guard t = true → (f t).w < t.w) :
+    total s'.tasks < total s.tasks := by
+  simp only [onTask] at hn
+  split at hn
+  · simp at hn
+  · next t ht =>
+    split at hn
+    · next hg =>
+      cases hn
+      have := total_updAt (f := f) ht
+      have := hdec t hg
+      simp only
+      omega
+    · simp at hn
+
+set_option hygiene false in
+local macro "wdec" : tactic =>
+  `(tactic| (intro t hg
+             rcases t with ⟨ph, bc, cs, lv, cnt, rc, rn⟩
+             cases ph <;> (try (simp at hg; done)) <;> cases cs <;> (try (simp at hg; done)) <;> cases lv <;>
+               simp_all [Task.w, Phase.w, CStage.w] <;> (try split) <;> (try omega)))
+
+theorem measure_decreases (c : SCfg) (s : SSt) (a : SAct) (s' : SSt) (hint : a.internal = true)
+    (hn : sNext c s a = some s') : total s'.tasks < total s.tasks := by
+  rcases afterAdd_cases c with ⟨ha, _⟩ | ⟨ha, _⟩ <;> cases a with
+  | sched => simp [SAct.internal] at hint
+  | add i inl =>
+    simp only [sNext] at hn
+    refine total_onTask hn ?_
+    cases inl <;> wdec
+  | popW i =>
+    simp only [sNext] at hn
+    split at hn
+    · refine total_onTask hn ?_
+      wdec
+    · simp at hn
+  | popC i =>
+    simp only [sNext] at hn
+    split at hn
+    · refine total_onTask hn ?_
+      wdec
+    · simp at hn
+  | run i => simp only [sNext] at hn; refine total_onTask hn ?_; wdec
+  | dec i => simp only [sNext] at hn; refine total_onTask hn ?_; wdec
+  | waitRet i => simp only [sNext] at hn; refine total_onTask hn ?_; wdec
+  | record i => simp only [sNext] at hn; refine total_onTask hn ?_; wdec
+  | reap i => simp only [sNext] at hn; refine total_onTask hn ?_; wdec
+
+theorem busyW_zero {s : SSt} (h : ∀ t ∈ s.tasks, t.phase ≠ .running ∧ t.phase ≠ .ran) : busyW s = 0 := by
+  simp only [busyW, List.countP_eq_zero]
+  intro t ht
+  have := h t ht
+  simp [Task.executing, this.1, this.2]
+
+/-- a well-formed configuration has no stuck state: while some task has not completed its life cycle,
+    some internal step is enabled -/
+theorem not_stuck (c : SCfg) (hl : c.wfLive = true) (s : SSt) (h : SInv c s) (t : Task)
+    (ht : t ∈ s.tasks) (hnd : t.phase ≠ .done) :
+    ∃ a : SAct, a.internal = true ∧ (sNext c s a).isSome = true := by
+  by_cases hex : ∃ t' ∈ s.tasks, t'.phase = .fresh ∨ t'.phase = .running ∨ t'.phase = .ran
+  · obtain ⟨t', ht', hp⟩ := hex
+    obtain ⟨i, hi⟩ := exists_getElem?_of_mem ht'
+    have hinv := h.tasks t' ht'
+    rcases hp with hp | hp | hp
+    · refine ⟨.add i false, rfl, ?_⟩
+      simp only [sNext]
+      exact onTask_some hi (by simp [hp, hinv.toAdd.mpr hp])
+    · refine ⟨.run i, rfl, ?_⟩
+      simp only [sNext]
+      exact onTask_some hi (by simp [hp])
+    · refine ⟨.dec i, rfl, ?_⟩
+      simp only [sNext]
+      exact onTask_some hi (by simp [hp])
+  · have hall : ∀ t' ∈ s.tasks, t'.phase ≠ .fresh ∧ t'.phase ≠ .running ∧ t'.phase ≠ .ran := by
+      intro t' ht'
+      refine ⟨?_, ?_, ?_⟩ <;> intro hp <;> exact hex ⟨t', ht', by simp [hp]⟩
+    have hq : t.phase = .queued := by
+      have := hall t ht
+      cases hp : t.phase <;> simp_all
+    obtain ⟨i, hi⟩ := exists_getElem?_of_mem ht
+    by_cases hw : 1 ≤ c.workers
+    · refine ⟨.popW i, rfl, ?_⟩
+      have hb : busyW s = 0 := busyW_zero (fun t' ht' => ⟨(hall t' ht').2.1, (hall t' ht').2.2⟩)
+      simp only [sNext, hb]
+      rw [if_pos (by omega)]
+      exact onTask_some hi (by simp [hq])
+    · have hin : (c.inlineNoWorkers && c.workers == 0) = true := by
+        simp only [SCfg.wfLive, Bool.or_eq_true, decide_eq_true_eq] at hl
+        rcases hl with hl | hl
+        · omega
+        · simp [hl]; omega
+      have hinv := h.tasks t ht
+      have hcs := hinv.awaited hin hnd (by simp [hq])
+      have hwt : t.cstage = .waiting := by
+        rcases hcs with hcs | hcs
+        · have := (hinv.adding hcs).2
+          simp [hq] at this
+        · exact hcs
+      refine ⟨.popC i, rfl, ?_⟩
+      have hcw : callerWaiting s = true := by
+        simp only [callerWaiting, List.any_eq_true]
+        exact ⟨t, ht, by simp [hwt]⟩
+      simp only [sNext, hcw, if_true]
+      exact onTask_some hi (by simp [hq])
 
 end RkVerif.C02
